@@ -9,6 +9,7 @@
 #include <unistd.h>
 
 extern "C" {
+void _dbus_verif_set_second_alloc_failure(int gap);
 #include <config.h>
 #include <dbus/dbus.h>
 #include <dbus/dbus-internals.h>
@@ -406,6 +407,7 @@ int World::bus_iterate(int iters, uint64_t io_seed, const simk::IoProfile &prof)
   const int big = 1 << 30;
   if (oom_at >= 0) {
     _dbus_set_fail_alloc_failures(oom_failures);
+    _dbus_verif_set_second_alloc_failure(oom_gap);
     _dbus_set_fail_alloc_counter(oom_at);
   } else if (measure_allocs) {
     _dbus_set_fail_alloc_counter(big);
@@ -417,6 +419,9 @@ int World::bus_iterate(int iters, uint64_t io_seed, const simk::IoProfile &prof)
   if (oom_at >= 0) {
     int left = _dbus_get_fail_alloc_counter();
     if (left == _DBUS_INT_MAX || left > oom_at) counters["oom_fired"]++;
+    if (oom_gap >= 0 && left == _DBUS_INT_MAX) counters["oom_second_fired"]++;
+    _dbus_verif_set_second_alloc_failure(-1);
+    oom_gap = -1;
     _dbus_set_fail_alloc_counter(_DBUS_INT_MAX);
     _dbus_set_fail_alloc_failures(1);
     oom_at = -1;
